@@ -481,19 +481,14 @@ class WorkflowConductor(object):
         _, first_term_task = term_tasks[0:1][0]
         other_term_tasks = term_tasks[1:]
 
-        wf_term_ctx = self.get_task_context(first_term_task["ctxs"]["in"])
+        term_ctx_idxs = json_util.deepcopy(first_term_task["ctxs"]["in"])
 
         for idx, task in other_term_tasks:
-            # Remove the initial context since the first task processed above already
-            # inclulded that and we only want to apply the differences.
-            in_ctx_idxs = json_util.deepcopy(task["ctxs"]["in"])
-            in_ctx_idxs.remove(0)
+            # The initial context and other entries that are already included by the
+            # tasks processed above are skipped. We only want to apply the differences.
+            term_ctx_idxs = self._merge_ctx_idxs(term_ctx_idxs, task["ctxs"]["in"])
 
-            wf_term_ctx = dict_util.merge_dicts(
-                wf_term_ctx, self.get_task_context(in_ctx_idxs), overwrite=True
-            )
-
-        return wf_term_ctx
+        return self.get_task_context(term_ctx_idxs)
 
     def render_workflow_output(self):
         wf_status = self.get_workflow_status()
@@ -962,6 +957,7 @@ class WorkflowConductor(object):
         if new_task_status in statuses.COMPLETED_STATUSES and new_task_status != old_task_status:
             has_manual_fail = False
             staged_next_tasks = []
+            new_ctx_idxs = {}
 
             # Identify task transitions for the current completed task.
             task_transitions = self.graph.get_next_transitions(task_id)
@@ -1007,8 +1003,18 @@ class WorkflowConductor(object):
                     out_ctx_idxs = json_util.deepcopy(task_state_entry["ctxs"]["in"])
 
                     if new_ctx:
-                        self.workflow_state.contexts.append(new_ctx)
-                        new_ctx_idx = len(self.workflow_state.contexts) - 1
+                        # The context published on a task transition is recorded once and
+                        # shared by all the next tasks listed in the same task transition.
+                        transition_ref = task_transition[3].get("ref")
+
+                        if transition_ref is None:
+                            transition_ref = task_transition_id
+
+                        if transition_ref not in new_ctx_idxs:
+                            self.workflow_state.contexts.append(new_ctx)
+                            new_ctx_idxs[transition_ref] = len(self.workflow_state.contexts) - 1
+
+                        new_ctx_idx = new_ctx_idxs[transition_ref]
 
                         # Add to the list of contexts for the next task in this transition.
                         out_ctx_idxs.append(new_ctx_idx)
@@ -1036,8 +1042,10 @@ class WorkflowConductor(object):
                         # Remove the root context to avoid overwriting vars.
                         out_ctx_idxs.remove(0)
 
-                        # Extend the outgoing context from this task.
-                        staged_next_task["ctxs"]["in"].extend(out_ctx_idxs)
+                        # Merge the outgoing context from this task.
+                        staged_next_task["ctxs"]["in"] = self._merge_ctx_idxs(
+                            staged_next_task["ctxs"]["in"], out_ctx_idxs
+                        )
 
                         # Add a backref for the current task in the next task.
                         staged_next_task["prev"][backref] = task_state_idx
@@ -1155,6 +1163,23 @@ class WorkflowConductor(object):
             return True
 
         return False
+
+    @staticmethod
+    def _merge_ctx_idxs(current, incoming):
+        # Merge an incoming list of context entries into the current list. An entry that is
+        # already included keeps its position, otherwise an older value that the incoming branch
+        # merely inherited overrides a newer value. A new entry goes before the entries that
+        # follow it in the incoming list, or to the end so that the later arrival wins.
+        merged = list(current)
+
+        for pos, idx in enumerate(incoming):
+            if idx in merged:
+                continue
+
+            followers = [merged.index(i) for i in incoming[pos + 1 :] if i in merged]
+            merged.insert(min(followers) if followers else len(merged), idx)
+
+        return merged
 
     def get_task_context(self, ctx_idxs):
         ctx = {}
